@@ -21,6 +21,13 @@ import (
 
 var c13AssumeNoSlash bool
 
+// what every registered relayer satisfies: registrations come from a governance proposal validated at submission
+// (RegisterRelayerProposal.ValidateBasic) or from a validated genesis, which checks the same
+func c13AssumeRegistrable(address string, chains, addresses []string) {
+	p := &types.RegisterRelayerProposal{Title: "t", Description: "d", Address: address, Chains: chains, Addresses: addresses}
+	rt.Assume(p.ValidateBasic() == nil)
+}
+
 func genesisKeeper() keeper.Keeper {
 	return keeper.NewKeeper(rt.Codec(), rt.StoreKey(host.StoreKey), paramtypes.Subspace{}, nil)
 }
@@ -57,7 +64,9 @@ func c13ClientGenesis() {
 	native := "teleport"
 	k.SetChainName(src, native)
 	relayer := rt.Str("relayer.address")
-	k.RegisterRelayers(src, relayer, []string{chain}, []string{rt.Str("relayer.counterparty")})
+	counterparty := rt.Str("relayer.counterparty")
+	c13AssumeRegistrable(relayer, []string{chain}, []string{counterparty})
+	k.RegisterRelayers(src, relayer, []string{chain}, []string{counterparty})
 
 	kind := rt.IntRange("clientType", 0, 3)
 	var ethHash common.Hash
